@@ -91,10 +91,13 @@ impl CosetTable {
     }
 
     fn compact(&self) -> CosetTable {
-        let mut n = 0;
+        // row 0 stands for the subgroup itself: if it has been merged into a
+        // later row, that row must become row 0 of the result
+        let base = self.canon(0);
+        let mut n = 1;
         let mut old_to_new = vec![0; self.len()];
         for k in 0..self.len() {
-            if self.canon(k) == k {
+            if self.canon(k) == k && k != base {
                 old_to_new[k] = n;
                 n += 1;
             }
